@@ -70,12 +70,23 @@ def c18(run, a):
                           {"check": fd["check"], "embedding": fd["embedding"], "ends_at_max": fd["ends_at_max"]})
     # (iii) every request of the IPAM-family driver runs under the scheduler's watchdog; panics are recorded
     F.plugin_traces(run, "C18", quick)
+    # (iv) every valid NetworkPolicy / pod event of the policy universe through the real PolicyManager (a panic kills the driver)
+    import policy_checks
+    tf, panic = policy_checks.gen(run, 40 if quick else 300, 12, run.seed, "c18-pol.ndjson")
+    if tf is None:
+        run.add_violation("NoPanic", "the policy manager panicked: " + (panic.strip().splitlines() or [""])[0][:200],
+                          {"property": "C18", "output": panic[-3000:], "how": "harness/cmd/poldrive -seed %d -n %d -len 12" % (run.seed, 40 if quick else 300)},
+                          {"prop": "NoPanic", "layer": "policy", "tag": ""})
+    else:
+        run.coverage["policy_actions_survived"] = sum(1 for _ in open(tf))
+        os.remove(tf)
     cov = run.coverage
     cov["evaluations"] += res["evaluations"]
     cov["distinct_nontrivial"] += sum(1 for v in json.load(open(vec))["vectors"] if v["valid"] and any(r[1] == 2 ** json.load(open(vec))["w"] - 1 for r in v["ranges"]))
     cov["rule"] = ("Words.tla: all (first,last) words, W=4, termination + exact walk; FipConf vectors at the top of the IPv4 space under a 2 s watchdog "
                    "(non-trivial = valid pool with a range ending at the maximum address); plus every operation of the IPAM-family traces under the "
-                   "scheduler watchdog with panic capture. Byte-level parser surfaces are NOT covered (DESIGN.md 6 C18).")
+                   "scheduler watchdog with panic capture; plus random NetworkPolicy/pod event histories through the real PolicyManager (every policyTypes/peer/port form of the universe). "
+                   "Byte-level parser surfaces are NOT covered (DESIGN.md 6 C18).")
     run.assumptions += ["narrow claim: arithmetic loops, lock release at operation end (a left-over lock shows as a hang of the next operation), panics in driven operations"]
 
 
